@@ -1327,3 +1327,143 @@ def return_signs(g, init=None, start_event=None, maxstates=400):
                     v = sg(e['value'], dict(envk)) if 'value' in e else None
                     res.append((e, v or '?'))
     return res
+
+
+# --------------------------------------------------------------------------
+# histories of the public timer calls, observed through the wait deadline (R-C04h)
+# --------------------------------------------------------------------------
+
+class TimerWorld:
+    """One library state on which the exported timer calls are *evaluated from the facts* (h05.Machine: no repository code
+    is executed) and observed only through what the loop itself looks at: the deadline iv_get_soonest_timeout() hands to
+    the wait.  Nothing of the representation of the timer store is assumed (where the root lives, binary heap or not,
+    which helpers restore the order): needed are the exported functions, the size of the state and of a timer, and where a
+    timer keeps its expiry."""
+
+    def __init__(self, prog):
+        from . import h05
+        self.h05 = h05
+        self.prog = prog
+        need = ('iv_timer_register', 'iv_timer_unregister', 'IV_TIMER_INIT', 'iv_get_soonest_timeout')
+        fs = []
+        for nm in need:
+            f = prog.fn(nm)
+            if f.static or not f.blocks:
+                raise AnalysisBroken('%s is not an exported function with a body' % nm)
+            fs.append(f)
+        self.f_reg, self.f_unreg, self.f_tinit, self.f_soonest = fs
+        if len(self.f_soonest.params) > 1:
+            raise AnalysisBroken('iv_get_soonest_timeout takes %d parameters: the deadline query of the loop changed its shape'
+                                 % len(self.f_soonest.params))
+        self.store = None
+        self.f_init = prog.fn('iv_timer_init') if prog.has_fn('iv_timer_init') else None
+        if self.f_init is not None:
+            self.m = h05.Machine(prog)
+        else:
+            # the per-thread initialiser was merged into its caller: the empty store is set up from the record layout
+            self.store = h05.Store(prog)
+            self.m = self.store.m
+        ty = self.m.ty
+        try:
+            self.o_exp = ty.offset('iv_timer_', 'expires')
+            self.o_sec = ty.offset('timespec', 'tv_sec')
+            self.o_nsec = ty.offset('timespec', 'tv_nsec')
+            self.timer_size = max(ty.sizeof('struct iv_timer'), ty.sizeof('struct iv_timer_'))
+            self.state_size = ty.sizeof('struct iv_state')
+        except AnalysisBroken as e:
+            raise AnalysisBroken('layout of a timer / the state (iv_timer_.expires, timespec, sizes) not found in the facts: %s' % e)
+        self.st = None
+        self.key = {}
+        self.last = None
+
+    def fresh(self):
+        m = self.m
+        m.steps = 0
+        m.journal = None
+        self.key = {}
+        if self.store is not None:
+            self.store.fresh()
+            self.st = self.store.st
+        else:
+            self.st = m.alloc('state', self.state_size, zero=True, tag='state')
+            m.state_ptr = ('p', self.st, 0)
+            self._eval(self.f_init, [m.state_ptr])
+        return self
+
+    def _eval(self, f, args):
+        try:
+            return self.m.run(f, args)
+        except self.h05.Fault as x:
+            raise AnalysisBroken('%s cannot be evaluated on a fresh object: %s' % (f.name, x))
+        except AnalysisBroken:
+            raise
+        except Exception as x:
+            raise AnalysisBroken('evaluator failed in %s: %s: %s' % (f.name, type(x).__name__, x))
+
+    def timer(self, key, name=None):
+        """a new, initialised, unregistered timer whose expiry is key = (sec, nsec)"""
+        t = self.m.alloc(name or 'T%d.%03d' % key, self.timer_size, zero=True, tag='timer')
+        t.cells[self.o_exp + self.o_sec], t.cells[self.o_exp + self.o_nsec] = key
+        self._eval(self.f_tinit, [('p', t, 0)])
+        self.key[t] = key
+        return t
+
+    def mark(self):
+        self.m.journal = []
+
+    def rollback(self, pos=0):
+        """undo the memory effects journalled since mark() (or since the journal had length pos)"""
+        j = self.m.journal
+        missing = self.h05.MISSING
+        while j and len(j) > pos:
+            x = j.pop()
+            if x[0] == 'freed':
+                x[1].freed = False
+            elif x[0] == 'zr':
+                x[1].zr = x[2]
+            elif x[2] is missing:
+                x[0].cells.pop(x[1], None)
+            else:
+                x[0].cells[x[1]] = x[2]
+
+    def pos(self):
+        return len(self.m.journal)
+
+    def _guard(self, f, args):
+        """(value, Fault | None) of one evaluated call"""
+        m = self.m
+        m.steps = 0
+        try:
+            return m.run(f, args), None
+        except self.h05.Fault as x:
+            return None, x
+        except AnalysisBroken:
+            raise
+        except RecursionError:
+            return None, self.h05.Fault('hang', 'evaluation recursed beyond the interpreter stack')
+        except Exception as x:          # a gap of the evaluator must not pass for a verdict
+            raise AnalysisBroken('evaluator failed in %s: %s: %s' % (f.name, type(x).__name__, x))
+
+    def call(self, what, t):
+        f = self.f_reg if what == 'register' else self.f_unreg
+        self.last = f
+        return self._guard(f, [('p', t, 0)])[1]
+
+    def deadline(self):
+        """what the loop would wait for now: (kind, key, timer, text); kind in none / timer / other / fault"""
+        f = self.f_soonest
+        v, fault = self._guard(f, [self.m.state_ptr] if f.params else [])
+        if fault is not None:
+            return 'fault', None, None, '%s: %s' % (f.name, fault.msg)
+        if v == 0:
+            return 'none', None, None, 'no deadline'
+        if not self.h05.is_ptr(v):
+            return 'other', None, None, '%s returns %r' % (f.name, v)
+        obj, off = v[1], v[2]
+        try:
+            k = (self.m.read(obj, off + self.o_sec), self.m.read(obj, off + self.o_nsec))
+        except self.h05.Fault as x:
+            return 'fault', None, None, 'the deadline %s cannot be read: %s' % (self.m.show(v), x.msg)
+        if obj in self.key and off == self.o_exp:
+            return 'timer', k, obj, '%d.%03d' % k
+        return 'other', k, None, '%s = %r' % (self.m.show(v), k)
